@@ -282,7 +282,7 @@ def gen_num(rng, nonzero=False, pow2=False):
 
 def gen_monomial(rng, n, poly):
     row = [F(rng.randint(0, 2)) if poly else F(rng.randint(-3, 4), 2) for _ in range(n)]
-    c = F(rng.choice([1, 4, 1, 2, -2, F(1, 4), 9]))
+    c = F(rng.choice([1, 4, 1, 2, -2, F(1, 4), 16, -4]))
     return {'k': 'sig', 'poly': poly, 'n': n, 'alpha': [[frac_str(x) for x in row]], 'c': [frac_str(c)]}
 
 
@@ -322,6 +322,32 @@ def gen_tree(rng, depth, n, poly):
         # force cancellations: f - f, f + (-f)
         return {'k': 'sub', 'l': l, 'r': l} if op == 'sub' else {'k': 'add', 'l': l, 'r': {'k': 'neg', 'l': l}}
     return {'k': op, 'l': l, 'r': gen_tree(rng, depth - 1, n, poly)}
+
+
+def is_pow2(k):
+    return k > 0 and (k & (k - 1)) == 0
+
+
+def exact_in_float(t):
+    """True when every subtree's exact value has dyadic coefficients (small) and exponents that are multiples of 1/128,
+    so that the implementation's float64 arithmetic and its 7-decimal rounding are exact on this tree."""
+    for x in ('l', 'r'):
+        if isinstance(t.get(x), dict) and not exact_in_float(t[x]):
+            return False
+    if t['k'] == 'pow' and F(t['p']).denominator not in (1, 2):
+        return False
+    try:
+        r = ref_eval(t)
+    except RefError as e:
+        return str(e) != 'inexact'
+    if r[0] == 'num':
+        return is_pow2(r[1].denominator) and abs(r[1]) < 2 ** 40
+    for key, v in r[2].items():
+        if not is_pow2(v.denominator) or v.denominator > 2 ** 30 or abs(v.numerator) > 2 ** 40:
+            return False
+        if any((not is_pow2(e.denominator)) or e.denominator > 128 or abs(e) > 2 ** 20 for e in key):
+            return False
+    return True
 
 
 def tree_size(t):
